@@ -642,6 +642,70 @@ def locals_owner(F):
         if not ok:
             r.violate("%s | num_locals sum" % pi["path"], F.loc(pi, lit), "at parse time num_locals does not add the count of every locals entry (%s): add_local then returns indices that collide with existing locals" % why)
     r.count("parse_body_literals", n_cnt)
+    # every LocalFunction is created with the parameter count of its own signature (num_args is the offset of every local index)
+    n_new = 0
+    for fn in F.fns:
+        if fn.get("body") is None:
+            continue
+        for c in walk(fn["body"]):
+            if c.get("k") == "Call" and (c.get("callee") or "").endswith("LocalFunction::<'a>::new") and len(c["args"]) >= 4:
+                n_new += 1
+                a = c["args"][3]
+                txt = set()
+                stack_ = [a]
+                seen_h = set()
+                while stack_:
+                    e_ = stack_.pop()
+                    for x in walk(e_):
+                        if x.get("k") == "Field":
+                            txt.add(x["name"])
+                        if x.get("k") == "MethodCall":
+                            txt.add(x["method"] + "()")
+                        if x.get("k") == "Path" and x.get("res", {}).get("r") == "local":
+                            txt.add(x["res"].get("name"))
+                            h_ = x["res"].get("hid")
+                            if h_ not in seen_h:
+                                seen_h.add(h_)
+                                for st in walk(fn["body"]):
+                                    if st.get("k") == "Let" and st["pat"].get("hid") == h_ and "init" in st:
+                                        stack_.append(st["init"])
+                ok = bool(txt & {"params", "params()", "num_params", "args"}) and not (txt & {"results", "results()", "ret"})
+                r.ob(ok, {"LocalFunction::new in": fn["path"], "num_args_from": sorted(t for t in txt if t)[:6]})
+                if fn["path"] not in r.analysed:
+                    r.analysed.append(fn["path"])
+                if not ok:
+                    r.violate("%s | num_args" % fn["path"], F.loc(fn, c), "a LocalFunction is created with num_args = `%s`, which is not the parameter count of its signature: every local index handed out for it later is offset wrongly" % snippet(_repo(), fn["file"], a["sp"]))
+    r.count("local_function_ctors", n_new)
+    # a local index is parameters + locals: any LocalID built from num_locals must add the parameter/argument count
+    for fn in F.fns:
+        if fn.get("body") is None:
+            continue
+        for c in walk(fn["body"]):
+            fr = c.get("fres") or {}
+            if c.get("k") == "Call" and (fr.get("adt") or "").endswith("id::LocalID") and c["args"]:
+                names = set()
+                stack_ = [c["args"][0]]
+                seen_h = set()
+                while stack_:
+                    e_ = stack_.pop()
+                    for x in walk(e_):
+                        if x.get("k") == "Field":
+                            names.add(x["name"])
+                        if x.get("k") == "MethodCall":
+                            names.add(x["method"] + "()")
+                        if x.get("k") == "Path" and x.get("res", {}).get("r") == "local":
+                            names.add(x["res"].get("name"))
+                            h_ = x["res"].get("hid")
+                            if h_ not in seen_h:
+                                seen_h.add(h_)
+                                for st in walk(fn["body"]):
+                                    if st.get("k") == "Let" and st["pat"].get("hid") == h_ and "init" in st:
+                                        stack_.append(st["init"])
+                if "num_locals" in names:
+                    ok = bool(names & {"num_params", "args", "params", "params()", "num_args"})
+                    r.ob(ok, {"LocalID from num_locals in": fn["path"], "adds_parameter_count": ok})
+                    if not ok:
+                        r.violate("%s | LocalID(num_locals)" % fn["path"], F.loc(fn, c), "a LocalID is computed from num_locals without the parameter count: in a function with parameters it names a parameter or an earlier local")
     # shape of add_local
     def classify(n):
         if n.get("k") == "AssignOp" and n["op"].startswith("+"):
